@@ -13,7 +13,10 @@
    part of the JSON step at the root of a document, frames, and the three classes the
    unchanged code does NOT restore, each exhibited as a theorem about the model. *)
 From Errdef Require Import Base.Str Base.Outcome Model.Core Model.GoErrors Model.Prog Model.Tree0 Model.Json
-  Model.Convert Model.Unmarshal Model.Decode Check.UM Check.C09 Proofs.C09Proofs Proofs.C09Structure.
+  Model.Convert Model.Unmarshal Model.Decode Model.JsonVal Check.UM Check.C09 Proofs.C09Proofs Proofs.C09Structure
+  Proofs.ValueRoundtrip.
+From Coq Require Import ZArith Reals.
+From Flocq Require Import Core IEEE754.BinarySingleNaN.
 
 (* STRUCTURE: for every errdef error whose cause tree lies in the domain - any shape and
    depth, native / restored / foreign nodes; errdef nodes field-less, without custom
@@ -30,6 +33,46 @@ Theorem C09_roundtrip_structure : forall c tbl unks e,
                 rshape r = tshape (tree_of e).
 Proof. exact roundtrip_structure. Qed.
 Print Assumptions C09_roundtrip_structure.
+
+(* VALUES: every scalar field value of the domain comes back through its typed key.  For every
+   scalar Go type t (bool, string, the ten integer kinds, float32, float64, and named types over
+   them) and every value v of that type inside the domain - integers that a float64 holds exactly
+   (|z| <= 2^53), finite floats, every float32 except +-MaxFloat32 - the JSON step (encoding/json
+   writes the value, jsonToDecodedData decodes it into `any`: model redecode) yields a decoded value
+   that tryConvertFieldValue binds to t with the SAME value (same integer, same IEEE bit pattern,
+   same string / bool).  The one stdlib behaviour assumed is the strconv contract on float32,
+   stated as the premise on [reparse32] (validated by the harness on every float32 it meets); the
+   float64 arithmetic is Flocq's. *)
+Theorem C09_scalar_values_roundtrip : forall reparse32 : Z -> Z,
+  (forall b, is_finite (f32_of_bits b) = true ->
+     is_finite (f64_of_bits (reparse32 b)) = true /\ f64_to_f32 (f64_of_bits (reparse32 b)) = f32_of_bits b) ->
+  forall t v, sty_wf t = true -> val_of_type t v = true -> rt_dom v ->
+  exists d b, redecode reparse32 v = Some d /\ try_convert (FScalar t) d = Ok (Some b) /\ bval_scalar b = Some v.
+Proof. exact scalar_value_roundtrip. Qed.
+Print Assumptions C09_scalar_values_roundtrip.
+
+Example C09_scalar_values_example :
+  sty_wf {| s_id := 100; s_kind := KInt |} = true /\
+  val_of_type {| s_id := 100; s_kind := KInt |} (SInt (-42)) = true /\ rt_dom (SInt (-42)) /\
+  redecode (fun b => b) (SInt (-42)) = Some (DS ty_float64 (SF64 13854479828675198976)) /\
+  try_convert (FScalar {| s_id := 100; s_kind := KInt |}) (DS ty_float64 (SF64 13854479828675198976))
+    = Ok (Some (BScalar {| s_id := 100; s_kind := KInt |} (SInt (-42)))).
+Proof. repeat split; try (vm_compute; reflexivity). cbn. unfold two53. lia. Qed.
+
+(* K9 (known finding, found while proving the theorem above): the guard "except +-MaxFloat32" is
+   NECESSARY on the unchanged code.  A float32 field holding math.MaxFloat32 is written as
+   3.4028235e+38; that text decodes to a float64 ABOVE math.MaxFloat32 - it still rounds to
+   MaxFloat32, so the strconv contract holds - and tryConvertFloat64 (`math.Abs(f64) > MaxFloat32`)
+   declines it: the typed extractor finds nothing after the round trip, and in strict mode
+   Unmarshal(Marshal(err)) fails with ErrUnknownField.  (C11 demands exactly this rejection -
+   "to float32 only within float32's range" - so the code cannot be repaired without breaking C11.) *)
+Theorem C09_max_float32_refuted :
+  f64_to_f32 (f64_of_bits reparsed_max32_bits64) = f32_of_bits max_float32_bits /\
+  is_finite (f64_of_bits reparsed_max32_bits64) = true /\
+  conv_f64 KFloat32 reparsed_max32_bits64 = None /\
+  try_convert (FScalar {| s_id := 12; s_kind := KFloat32 |}) (DS ty_float64 (SF64 reparsed_max32_bits64)) = Ok None.
+Proof. exact max_float32_not_rebound. Qed.
+Print Assumptions C09_max_float32_refuted.
 
 (* its two halves: the JSON step is lossless on the shape; Unmarshal restores the shape *)
 Theorem C09_marshal_decode_shape : forall t, mdom t ->
